@@ -9,7 +9,7 @@ DECLS = [None, '<?xml version="1.0"?>', "<?xml version='1.0' encoding='UTF-8'?>"
 
 def default_style():
     return {"decl": 1, "indent": False, "quote": '"', "empty": "self", "raw_gt": False, "charref": "ascii",
-            "trail": "\n", "pad": False, "tagspace": False, "seed": 0}
+            "trail": "\n", "pad": False, "tagspace": False, "attrsep": " ", "seed": 0}
 
 
 def library_style():
@@ -28,6 +28,8 @@ def rand_style(rng: random.Random):
         "trail": rng.choice(["\n", "", "\n\n", " ", "\r\n"]),
         "pad": rng.random() < 0.3,
         "tagspace": rng.random() < 0.3,
+        # white space XML allows between the element name and its attributes (attribute-per-line pretty printers, tabs)
+        "attrsep": rng.choice([" ", " ", " ", "\n", "\t", "\r\n", "\n    ", "mix"]),
         "seed": rng.randrange(1 << 30),
     }
 
@@ -86,10 +88,14 @@ class Speller:
 
     def _open(self, spec):
         sp = "  " if self.s["tagspace"] and self.rng.random() < 0.5 else " "
-        parts = [spec["tag"]]
+        sep = self.s.get("attrsep", " ")
+        out = [spec["tag"]]
         for k, v in spec["attrs"]:
-            parts.append(f"{k}={self._attr(v)}")
-        return "<" + sp.join(parts)
+            s1 = sep
+            if s1 == "mix":
+                s1 = self.rng.choice([" ", "\n", "\t", "\n  "])
+            out.append((sp if s1 == " " else s1) + f"{k}={self._attr(v)}")
+        return "<" + "".join(out)
 
     def element(self, spec, depth=0):
         ind = self.s["indent"]
